@@ -18,3 +18,7 @@ spec fn outcome_of<E>(res: Result<ExecutionResult, EVMError<E>>) -> Option<TxExe
 spec fn step_done<E, F: FnMut(TxId, &TxEnv) -> Result<ExecutionResult, EVMError<E>>>(f: F, j: TxId, t: TxEnv, o: TxExecutionOutcome) -> bool {
     exists|res: Result<ExecutionResult, EVMError<E>>| #[trigger] f.ensures((j, &t), res) && outcome_of(res) == Some(o)
 }
+impl<DB: DatabaseRef> Scheduler<DB> {
+    /// issued fact of replay_uncommitted_suffix: a sequential replay from this committed boundary was run (its result is returned)
+    pub uninterp spec fn replayed_from(&self, c: CommittedPrefixEnd, r: Result<(), GrevmError<DB::Error>>) -> bool;
+}
